@@ -148,6 +148,7 @@ def run(rec):
     singlets(rec, rng)
     covering(rec, rng, quick)
     segments(rec, rng, quick)
+    segment_boundaries_accumulate(rec, rng, quick)
     exact_diag_conversions(rec, rng, quick)
     projected_product_states(rec, rng, quick)
     infinite(rec, rng, quick)
@@ -284,6 +285,39 @@ def segments(rec, rng, quick):
             rec.check(np.allclose(seg.entanglement_entropy(), ent_old, atol=1e-8), 'segment.canonical_form_finite:entropies-changed', '', inp)
             rec.check(abs(seg.norm - norm_old) < 1e-10, 'segment.canonical_form_finite:norm-changed', f'{norm_old} -> {seg.norm}', inp)
             rec.check(np.max(np.abs(seg.norm_test())) < 1e-8, 'segment.canonical_form_finite:norm_test', str(seg.norm_test()), inp)
+            # a second canonicalisation (hidden in apply_local_op with a non-unitary operator): the boundary transformations accumulate in
+            # segment_boundaries so that  U_L theta V_R * norm  stays the wave function of the segment in the original boundary basis
+            UL1, VR1 = seg.segment_boundaries
+            if UL1 is None:
+                continue
+            full = lambda p_, U_, V_: npc.tensordot(npc.tensordot(U_, dense_seg(p_), axes=['vR', 'vL']), V_, axes=['vR', 'vL'])
+            before = full(seg, UL1, VR1) * seg.norm
+            exp = before
+            inp2 = dict(inp)
+            applied = []
+            for i_op in (seg.L - 1, 0, int(rng.integers(0, seg.L))):      # both ends (their boundary matrices change), then anywhere
+                site_i = seg.sites[i_op]
+                cands = [n for n in sorted(site_i.opnames) if not site_i.op_needs_JW(n) and n != 'Id' and np.all(site_i.get_op(n).qtotal == 0)
+                         and np.linalg.matrix_rank(site_i.get_op(n).to_ndarray()) == site_i.dim
+                         and not np.allclose(site_i.get_op(n).to_ndarray() @ site_i.get_op(n).to_ndarray().conj().T, np.eye(site_i.dim))]
+                if not cands:
+                    continue
+                opn = cands[int(rng.integers(0, len(cands)))]
+                applied.append((opn, i_op))
+                inp2 = dict(inp, ops=list(applied))
+                ok, _ = rec.guarded('segment.apply_local_op:exception', lambda: seg.apply_local_op(i_op, opn, unitary=False, renormalize=False), inp2)
+                if not ok:
+                    break
+                exp = npc.tensordot(site_i.get_op(opn), exp, axes=['p*', f'p{i_op}']).replace_label('p', f'p{i_op}')
+                exp.itranspose(before.get_leg_labels())
+            if not applied or not ok:
+                continue
+            UL2, VR2 = seg.segment_boundaries
+            after = full(seg, UL2, VR2) * seg.norm
+            after.itranspose(before.get_leg_labels())
+            rec.check(npc.norm(after - exp) < 1e-8 * (1 + npc.norm(exp)), 'segment.apply_local_op:state-with-boundaries',
+                      f'|U_L theta V_R norm - O(U_L theta V_R norm)_before| = {npc.norm(after - exp)}', inp2)
+            rec.check(np.max(np.abs(seg.norm_test())) < 1e-8, 'segment.apply_local_op:norm_test', '', inp2)
 
 
 def exact_diag_conversions(rec, rng, quick):
@@ -397,3 +431,55 @@ def infinite(rec, rng, quick):
                               np.allclose(p.correlation_function('Sp', 'Sm', [0], [1, 2, 3]), ref2, atol=1e-7),
                               f'{method}:observables-changed', f'form {form}', {'L': L})
                     rec.check(np.max(np.abs(p.norm_test())) < 1e-6, f'{method}:norm_test', str(p.norm_test()), {'L': L, 'form': form})
+
+
+def segment_boundaries_accumulate(rec, rng, quick):
+    """segments with several states per boundary (no charges / parity only), general non-unitary one-site operators applied one after
+    the other - each application canonicalises the segment again: U_L theta V_R * norm, with the accumulated `segment_boundaries`, is
+    the product of the operators applied to the original segment wave function"""
+    import tenpy.linalg.np_conserved as npc
+    from tenpy.networks.mps import MPS
+    from tenpy.networks.site import SpinHalfSite
+
+    def full(seg):
+        th = seg.get_theta(0, seg.L)
+        U, V = seg.segment_boundaries
+        if U is not None:
+            th = npc.tensordot(npc.tensordot(U, th, axes=['vR', 'vL']), V, axes=['vR', 'vL'])
+        return th.itranspose(['vL'] + [f'p{i}' for i in range(seg.L)] + ['vR']).to_ndarray() * seg.norm
+    for conserve in (None, 'parity'):
+        for dtype in (float, complex):
+            for rep in range(1 if quick else 4):
+                L = 7
+                site = SpinHalfSite(conserve=conserve)
+                vec = rng.normal(size=[2] * L) + (1.j * rng.normal(size=[2] * L) if dtype is complex else 0.)
+                if conserve == 'parity':       # keep one parity sector
+                    idx = np.indices([2] * L).sum(axis=0) % 2
+                    vec = np.where(idx == 0, vec, 0.)
+                vec = vec / np.linalg.norm(vec)
+                arr = npc.Array.from_ndarray(vec, [site.leg] * L, dtype=np.dtype(dtype) if dtype is complex else None, labels=[f'p{i}' for i in range(L)])
+                big = MPS.from_full([site] * L, arr, form='B')
+                for first, last in ((2, 4), (1, 5)):
+                    seg = big.extract_segment(first, last)
+                    n = seg.L
+                    dense = full(seg)
+                    applied = []
+                    for k in range(3):
+                        i = [n - 1, 0, n - 2][k]
+                        if conserve is None:
+                            m = np.eye(2) + 0.7 * rng.normal(size=(2, 2)) + (0.7j * rng.normal(size=(2, 2)) if dtype is complex else 0.)
+                        else:
+                            m = np.diag(1. + 0.7 * rng.normal(size=2))       # parity-conserving
+                        op = npc.Array.from_ndarray(m, [site.leg, site.leg.conj()], labels=['p', 'p*'])
+                        applied.append((i, np.round(m, 3).tolist()))
+                        inp = {'conserve': conserve, 'dtype': dtype.__name__, 'segment': [first, last], 'ops': str(applied)}
+                        rec.begin(f'C07 segment boundaries accumulate {inp}')
+                        rec.case(('segment-accumulate', conserve, dtype.__name__, rep, first, k), True)
+                        ok, _ = rec.guarded('segment.apply_local_op(general):exception', lambda: seg.apply_local_op(i, op, unitary=False, renormalize=False), inp)
+                        if not ok:
+                            break
+                        dense = np.moveaxis(np.tensordot(m, dense, axes=[1, 1 + i]), 0, 1 + i)
+                        got = full(seg)
+                        rec.check(np.max(np.abs(got - dense)) < 1e-9 * (1 + np.max(np.abs(dense))), 'segment.apply_local_op(general):state-with-boundaries',
+                                  f'after {k + 1} operator(s): max deviation {np.max(np.abs(got - dense))}', inp)
+                        rec.check(np.max(np.abs(seg.norm_test())) < 1e-8, 'segment.apply_local_op(general):norm_test', '', inp)
